@@ -50,6 +50,36 @@ def oid_tuple(o) -> tuple:
     return tuple(int(p) for p in s.split(".")) if s else ()
 
 
+def _canon_table():
+    """the documented value classes under the names the documentation uses for them (a class may be renamed as long as the
+    documented name still refers to it)"""
+    import puresnmp.pdu as _pdu
+    import puresnmp.types as _pt
+    import x690.types as _xt
+
+    out = []
+    for mod, names in ((_pt, ("Counter", "Counter64", "Gauge", "TimeTicks", "IpAddress", "Opaque")),
+                       (_xt, ("Integer", "OctetString", "Null", "ObjectIdentifier")),
+                       (_pdu, ("NoSuchObject", "NoSuchInstance", "EndOfMibView"))):
+        for n in names:
+            cls = getattr(mod, n, None)
+            if cls is not None:
+                out.append((cls, n))
+    return out
+
+
+_CANON = []
+
+
+def _canon_name(x):
+    if not _CANON:
+        _CANON.extend(_canon_table())
+    for cls, n in _CANON:
+        if type(x) is cls:
+            return n
+    return type(x).__name__
+
+
 class Unreadable(Exception):
     """the API handed out an object whose value cannot be read (values are decoded lazily: the exception belongs to the
     code under test, not to the harness)"""
@@ -58,7 +88,7 @@ class Unreadable(Exception):
 def observe(x):
     """(type name, python value) of an object returned by the raw API, with
     OIDs normalised to integer tuples."""
-    name = type(x).__name__
+    name = _canon_name(x)
     try:
         v = x.value
         if name == "ObjectIdentifier":
